@@ -69,7 +69,10 @@ def check(index, ctx):
                 ctx.require(ok, "R1", f"{run.label}: .grad write at {_layout.short_fn(e)} targets {e['target']}" if ok else f"{run.entry}: {_layout.key(e)} writes .grad of {e['target']}",
                             "target within the requested collections", f".grad of {e['target']} is written although only {sorted(want)} were requested", e["loc"], nontrivial=False)
                 vd, td_ = e.get("value_dtype"), e.get("target_dtype")
-                if vd and td_ and not e["aug"] and not _pipe.is_empty_path(res):
+                if vd and td_ and not e["aug"] and not _pipe.is_empty_path(res) and vd not in (td_, "dt:=key") and _pipe.blocking(res):
+                    b_ = _pipe.blocking(res)[0]
+                    ctx.undecided("R4", f"{run.entry}: dtype of the value stored in .grad of {e['target']}", f"the value's provenance passes through a construct outside the analysed subset: {b_['loc']} `{b_['text']}`", e["loc"])
+                elif vd and td_ and not e["aug"] and not _pipe.is_empty_path(res):
                     ctx.require(vd in (td_, "dt:=key"), "R4", f"{_layout.short_fn(e)}: dtype of the value stored in .grad" if vd in (td_, "dt:=key") else f"{run.entry}: .grad of {e['target']} receives a tensor of another dtype",
                                 f"value dtype {vd} = parameter dtype", f"the stored tensor's dtype follows {vd} while the parameter's dtype is {td_}: when outputs and parameters have different dtypes "
                                 "the assignment fails or silently changes precision (and the result depends on which code path produced the tensor)", e["loc"], nontrivial=False)
